@@ -46,7 +46,8 @@ Lemma wf_equals_loop l k0 : wfree (equals_loop l k0). Proof. revert k0; inductio
 Lemma wf_fold_loop f sp fr acc l : wfree (fold_loop f sp fr acc l). Proof. revert acc; induction l; intros; cbn [fold_loop]; wfa. Qed.
 Lemma wf_procs sp l : wfree (procs sp l). Proof. induction l; cbn [procs]; wfa. Qed.
 Lemma wf_peek_lits l : wfree (peek_lits l). Proof. induction l as [|v l IH]; cbn [peek_lits]; wfa. Qed.
-#[local] Hint Resolve wf_all_bools wf_equals_loop wf_fold_loop wf_procs wf_peek_lits : wf.
+Lemma wf_real_binop sp op a d : wfree (real_binop sp op a d). Proof. unfold real_binop. wfa. Qed.
+#[local] Hint Resolve wf_all_bools wf_equals_loop wf_fold_loop wf_procs wf_peek_lits wf_real_binop : wf.
 
 Lemma wf_builtin n sp argv : wfree (builtin n sp argv).
 Proof.
